@@ -161,7 +161,9 @@ def main(argv=None):
     if a.replay:
         return replay(pid, a.replay, repo, seed)
     P, mod = load_prop(pid)
-    timeout_ms = 15000 if tier == 'quick' else 60000
+    # sized so that verdicts do not flip when all cores are busy: almost every obligation is discharged in milliseconds, the budget only
+    # matters for the few slow ones (and for obligations that fail)
+    timeout_ms = 45000 if tier == "quick" else 120000
     pairs = []
     for mn in prop_modules(pid):
         Pm, _ = load_prop(pid, mn)
